@@ -34,6 +34,7 @@ package ecscache
 //@             (isOPT(msg.Extra[i]) ==> optAt(msg, i).Option == old(optAt(msg, i).Option) &&
 //@                (forall j int :: 0 <= j && j < len(optAt(msg, i).Option) ==> optAt(msg, i).Option[j] == old(optAt(msg, i).Option[j]))))
 //@   ensures forall i int :: 0 <= i && i < len(clone.Extra) && isOPT(clone.Extra[i]) ==> optAt(clone, i) != nil && optsValid(optAt(clone, i))
+//@   ensures reads-only-its-source: old(ecsNone(msg)) ==> ecsNone(msg) && ecsNone(clone)
 
 //@ func setRespAD
 //@   property C04
@@ -49,17 +50,21 @@ package ecscache
 //@   requires item != nil && item.msg != nil && cloner != nil && req != nil
 //@   requires validRRs(item.msg.Answer) && validRRs(item.msg.Ns) && validRRs(item.msg.Extra)
 //@   modifies heap, lastLowest
-//@   ensures resp != nil && resp.Id == req.Id
+//@   preserves cacheRequest.*, agd.RequestInfo.*, dnsmsg.ECS.*, geoip.Location.*
+//@   ensures resp != nil && resp.Id == req.Id && validRRs(resp.Extra) && optsOK(resp.Extra)
+//@   ensures no-subnet-option-appears: old(ecsNone(item.msg)) ==> ecsNone(resp)
 //@   ensures ttl-decays-with-age: allTTL(resp.Answer, ecsServedTTL(lastLowest, sinceNs(old(item.when)))) &&
 //@             allTTL(resp.Ns, ecsServedTTL(lastLowest, sinceNs(old(item.when)))) && allTTL(resp.Extra, ecsServedTTL(lastLowest, sinceNs(old(item.when))))
 //@   loop 1 invariant -1 <= #i && #i < 3
 //@   loop 1 invariant (#i >= 0 ==> allTTL(resp.Answer, newTTL)) && (#i >= 1 ==> allTTL(resp.Ns, newTTL)) && (#i >= 2 ==> allTTL(resp.Extra, newTTL))
 //@   loop 1 invariant resp != nil && validRRs(resp.Answer) && validRRs(resp.Ns) && validRRs(resp.Extra)
+//@   loop 1 invariant old(ecsNone(item.msg)) ==> ecsNone(resp)
 //@   loop 2 invariant -1 <= #i && #i < len(rrs) && -1 <= #i1 && #i1 + 1 < 3 && validRRs(rrs)
 //@   loop 2 invariant (#i1 + 1 == 0 ==> rrs == resp.Answer) && (#i1 + 1 == 1 ==> rrs == resp.Ns) && (#i1 + 1 == 2 ==> rrs == resp.Extra)
 //@   loop 2 invariant forall j int :: 0 <= j && j <= #i ==> hdrOf(rrs[j]).Ttl == newTTL
 //@   loop 2 invariant (#i1 + 1 >= 1 ==> allTTL(resp.Answer, newTTL)) && (#i1 + 1 >= 2 ==> allTTL(resp.Ns, newTTL))
 //@   loop 2 invariant resp != nil && validRRs(resp.Answer) && validRRs(resp.Ns) && validRRs(resp.Extra)
+//@   loop 2 invariant old(ecsNone(item.msg)) ==> ecsNone(resp)
 
 // ---------------------------------------------------------------------------
 // C05: client subnets stay private, ECS-dependent answers stay in their region.
@@ -82,8 +87,7 @@ package ecscache
 //@ pred ecsAll(m *dns.Msg, fam int, a netip.Addr, bits int, scope int) = forall i int, j int :: lastOPT(m, i) && 0 <= j && j < len(optAt(m, i).Option) ==>
 //@        subnetOptIs(optAt(m, i).Option[j], fam, a, bits, scope)
 //@ pred ecsSome(m *dns.Msg) = exists i int, j int :: lastOPT(m, i) && 0 <= j && j < len(optAt(m, i).Option) && isptr(optAt(m, i).Option[j], dns.EDNS0_SUBNET)
-//@ pred ecsNone(m *dns.Msg) = forall i int, j int :: 0 <= i && i < len(m.Extra) && isOPT(m.Extra[i]) && 0 <= j && j < len(optAt(m, i).Option) ==>
-//@        !isptr(optAt(m, i).Option[j], dns.EDNS0_SUBNET)
+//@ fpred ecsNone(m *dns.Msg) = forall i int :: 0 <= i && i < len(m.Extra) && isOPT(m.Extra[i]) ==> optNoSubnet(optAt(m, i))
 
 // addrToNetIP converts the address to the bytes of the family (assumed: the
 // byte-level conversion is netip's; the error cases are those of the source).
@@ -92,17 +96,18 @@ package ecscache
 //@   ensures (err == nil) == ((fam == 1 && !addrIs6(ip)) || (fam == 2 && !addrIs4(ip)))
 //@   ensures err == nil ==> fresh(res) && ipBytes[arr(res)] == ip && (forall k int :: k != arr(res) ==> ipBytes[k] == old(ipBytes[k]))
 
+//@ pred subnetOptsNonNil(o *dns.OPT) = forall j int :: 0 <= j && j < len(o.Option) && isptr(o.Option[j], dns.EDNS0_SUBNET) ==> ref(o.Option[j]) != 0
 //@ func setECS
 //@   property C05
 //@   requires msg != nil && ecs != nil && validRRs(msg.Extra)
-//@   requires forall i int :: 0 <= i && i < len(msg.Extra) && isOPT(msg.Extra[i]) ==> optAt(msg, i) != nil && optsValid(optAt(msg, i))
+//@   requires forall i int :: 0 <= i && i < len(msg.Extra) && isOPT(msg.Extra[i]) ==> optAt(msg, i) != nil && subnetOptsNonNil(optAt(msg, i))
 //@   modifies msg.Extra, allelems(dns.RR), allelems(dns.EDNS0), dns.OPT.Option, dns.OPT.Hdr, dns.RR_Header.*, dns.EDNS0_SUBNET.*, ipBytes
 //@   ensures every-subnet-option-rewritten: err == nil ==> ecsAll(msg, ecsFam, prefixAddr(ecs.Subnet), wrap(prefixBits(ecs.Subnet), uint8), isResp ? wrap(prefixBits(ecs.Subnet), uint8) : 0)
 //@   ensures carries-one: err == nil ==> ecsSome(msg)
 //@   loop 1 invariant -1 <= #i && #i < len(opt.Option) && opt != nil && lastOPTptr(msg, opt)
 //@   loop 1 invariant forall j int :: 0 <= j && j <= #i ==> subnetOptIs(opt.Option[j], ecsFam, prefixAddr(ecs.Subnet), prefixLen, scope)
 //@   loop 1 invariant found == (exists j int :: 0 <= j && j <= #i && isptr(opt.Option[j], dns.EDNS0_SUBNET))
-//@   loop 1 invariant ipBytes[arr(ip)] == prefixAddr(ecs.Subnet) && msg.Extra == old(msg.Extra) && optsValid(opt)
+//@   loop 1 invariant ipBytes[arr(ip)] == prefixAddr(ecs.Subnet) && msg.Extra == old(msg.Extra) && subnetOptsNonNil(opt)
 //@ pred lastOPTptr(m *dns.Msg, o *dns.OPT) = exists i int :: lastOPT(m, i) && m.Extra[i] == asiface(o)
 
 //@ func ecsFamFromReq
@@ -138,7 +143,7 @@ package ecscache
 //@   ensures key-covers-subnet-iff-dependent: key == keyOf(cr, respIsECSDependent)
 
 // Cached items are well-formed (toCacheItem stores a clone of a response).
-//@ pred itemsOK() = forall it *cacheItem :: it != nil ==> it.msg != nil && validRRs(it.msg.Answer) && validRRs(it.msg.Ns) && validRRs(it.msg.Extra)
+//@ pred itemsOK() = forall it *cacheItem :: it != nil ==> it.msg != nil && validRRs(it.msg.Answer) && validRRs(it.msg.Ns) && validRRs(it.msg.Extra) && ecsNone(it.msg)
 
 //@ func (*Middleware).itemFromCache
 //@   property C05
@@ -150,9 +155,13 @@ package ecscache
 //@   property C05
 //@   requires mw != nil && mw.logger != nil && mw.cloner != nil && ref(mw.cache) != 0 && ref(mw.ecsCache) != 0 && cr != nil && req != nil && itemsOK()
 //@   modifies heap, lastLowest, cgetCache, cgetKey, hst, ipBytes
+//@   preserves cacheRequest.*, agd.RequestInfo.*, dnsmsg.ECS.*, geoip.Location.*
 //@   ensures opted-out-never-served-from-the-subnet-cache: old(cr.isECSDeclined) ==> !isECSDependent && (resp != nil ==> cgetCache == mw.cache)
 //@   ensures subnet-answers-only-under-the-subnet-key: isECSDependent ==> resp != nil && cgetCache == mw.ecsCache && cgetKey == old(keyOf(cr, true))
 //@   ensures resp != nil && !isECSDependent ==> cgetCache == mw.cache && cgetKey == old(keyOf(cr, false))
+//@   ensures cached-answers-carry-no-subnet-option: resp != nil ==> ecsNone(resp) && validRRs(resp.Extra) && optsOK(resp.Extra)
+//@   ensures a-miss-changes-nothing: resp == nil ==> cr.subnet == old(cr.subnet) && cr.isECSDeclined == old(cr.isECSDeclined) && cr.host == old(cr.host) &&
+//@             cr.qType == old(cr.qType) && cr.qClass == old(cr.qClass) && cr.reqDO == old(cr.reqDO)
 
 //@ func isCacheable
 //@   modifies nothing
@@ -187,7 +196,7 @@ package ecscache
 //@   requires validRRs(rrs) && optsOK(rrs) && optsApart()
 //@   modifies elems(rrs), dns.OPT.Option, allelems(dns.EDNS0)
 //@   ensures no-subnet-option-left: forall i int :: 0 <= i && i < len(filtered) && isOPT(filtered[i]) ==> optNoSubnet(asptr(filtered[i], dns.OPT))
-//@   ensures validRRs(filtered) && optsOK(filtered) && optsApart() && len(filtered) <= len(rrs)
+//@   ensures validRRs(filtered) && optsOK(filtered) && optsApart() && len(filtered) <= len(rrs) && arr(filtered) == arr(rrs)
 //@   loop 1 invariant -1 <= #i && #i < len(rrs) && 0 <= len(filtered) && len(filtered) <= #i + 1
 //@   loop 1 invariant arr(filtered) == arr(rrs) && off(filtered) == off(rrs) && cap(filtered) == len(rrs)
 //@   loop 1 invariant forall k int :: #i < k && k < len(rrs) ==> rrs[k] == old(rrs[k])
@@ -202,6 +211,61 @@ package ecscache
 //@   requires validRRs(resp.Answer) && validRRs(resp.Ns) && validRRs(resp.Extra)
 //@   modifies heap, lastLowest, csets, csetKey, csetVal, hst, ipBytes
 //@   ensures only-the-matching-cache: forall c any :: c != (respIsECSDependent ? mw.ecsCache : mw.cache) ==> csets[c] == old(csets[c])
+//@   ensures leaves-the-response-alone: old(ecsNone(resp)) ==> ecsNone(resp)
+//@   ensures resp.Extra == old(resp.Extra) && (forall i int :: 0 <= i && i < len(resp.Extra) ==> resp.Extra[i] == old(resp.Extra[i]))
 //@   ensures stored-under-its-key: (csets[respIsECSDependent ? mw.ecsCache : mw.cache] == old(csets[respIsECSDependent ? mw.ecsCache : mw.cache]) ||
 //@             (csets[respIsECSDependent ? mw.ecsCache : mw.cache] == old(csets[respIsECSDependent ? mw.ecsCache : mw.cache]) + 1 &&
 //@              csetKey[respIsECSDependent ? mw.ecsCache : mw.cache] == old(keyOf(cr, respIsECSDependent))))
+
+//@ func rmHopToHopData
+//@   property C05
+//@   requires resp != nil && validRRs(resp.Answer) && validRRs(resp.Ns) && validRRs(resp.Extra) && optsOK(resp.Answer) && optsOK(resp.Ns) && optsOK(resp.Extra) && optsApart()
+//@   requires sections-apart: (arr(resp.Answer) != arr(resp.Ns) || arr(resp.Answer) == 0) && (arr(resp.Answer) != arr(resp.Extra) || arr(resp.Answer) == 0) && (arr(resp.Ns) != arr(resp.Extra) || arr(resp.Ns) == 0)
+//@   modifies resp.Answer, resp.Ns, resp.Extra, allelems(dns.RR), dns.OPT.Option, allelems(dns.EDNS0)
+//@   ensures no-subnet-option-goes-back: ecsNone(resp)
+//@   ensures validRRs(resp.Answer) && validRRs(resp.Ns) && validRRs(resp.Extra) && optsOK(resp.Extra) && optsApart()
+
+//@ func writeCachedResponse
+//@   property C05
+//@   requires ref(rw) != 0 && req != nil && resp != nil && validRRs(resp.Extra) && optsOK(resp.Extra) && ecsNone(resp)
+//@   modifies heap, ipBytes, writes, wroteReq, wroteResp, wroteId, wroteRcode, wroteNQ, wroteQ, truncSize
+//@   atcall ResponseWriter.WriteMsg assert subnet-echoed-iff-asked: (ecs != nil ==> ecsSome(resp) &&
+//@             ecsAll(resp, ecsFam, prefixAddr(ecs.Subnet), wrap(prefixBits(ecs.Subnet), uint8), wrap(prefixBits(ecs.Subnet), uint8))) &&
+//@             (ecs == nil ==> ecsNone(resp))
+
+//@ func (*Middleware).writeUpstreamResponse
+//@   property C05
+//@   requires mw != nil && mw.logger != nil && mw.cloner != nil && ref(mw.cache) != 0 && ref(mw.ecsCache) != 0 && ref(rw) != 0
+//@   requires req != nil && len(req.Question) >= 1 && resp != nil && ri != nil && cr != nil && (ecsFam == 1 || ecsFam == 2)
+//@   requires validRRs(resp.Answer) && validRRs(resp.Ns) && validRRs(resp.Extra) && optsOK(resp.Answer) && optsOK(resp.Ns) && optsOK(resp.Extra) && optsApart()
+//@   requires forall i int :: 0 <= i && i < len(resp.Extra) && isOPT(resp.Extra[i]) ==> subnetOptsNonNil(optAt(resp, i))
+//@   requires (arr(resp.Answer) != arr(resp.Ns) || arr(resp.Answer) == 0) && (arr(resp.Answer) != arr(resp.Extra) || arr(resp.Answer) == 0) && (arr(resp.Ns) != arr(resp.Extra) || arr(resp.Ns) == 0)
+//@   modifies heap, ipBytes, hst, lastLowest, csets, csetKey, csetVal, writes, wroteReq, wroteResp, wroteId, wroteRcode, wroteNQ, wroteQ, truncSize
+//@   atcall set assert unscoped-answers-are-stored-without-subnet: !respIsECS ==> cr.subnet == zeroPrefix(ecsFam)
+//@   atcall set assert scope-zero-is-never-subnet-specific: scope == 0 ==> !respIsECS
+//@   atcall ResponseWriter.WriteMsg assert subnet-echoed-iff-asked: (ri.ECS != nil ==> ecsSome(resp) &&
+//@             ecsAll(resp, ecsFam, prefixAddr(ri.ECS.Subnet), wrap(prefixBits(ri.ECS.Subnet), uint8), wrap(prefixBits(ri.ECS.Subnet), uint8))) &&
+//@             (ri.ECS == nil ==> ecsNone(resp))
+
+// The upstream sees the GeoIP subnet of the client's (or its option's)
+// location, or the zero prefix - never the client's address or the subnet the
+// client supplied; a client that opted out with /0 gets a /0 upstream query.
+//@ func (*mwHandler).ServeDNS
+//@   property C05
+//@   requires mh != nil && mh.mw != nil && ref(mh.next) != 0 && ref(rw) != 0 && req != nil && len(req.Question) >= 1
+//@   requires mh.mw.logger != nil && mh.mw.cloner != nil && mh.mw.cacheReqPool != nil && ref(mh.mw.cache) != 0 && ref(mh.mw.ecsCache) != 0 && ref(mh.mw.geoIP) != 0
+//@   requires itemsOK() && optsApart()
+//@   modifies heap, ipBytes, hst, lastLowest, csets, csetKey, csetVal, cgetCache, cgetKey, geoSubnet, geoCountry, geoASN, geoSubdiv, geoFam,
+//@            writes, wroteReq, wroteResp, wroteId, wroteRcode, wroteNQ, wroteQ, truncSize, served, servedReq, servedRW, servedErr, stamped
+//@   atcall writeUpstreamResponse assume next-stage-leaves-the-original-request-alone: len(req.Question) >= 1
+//@   atcall writeUpstreamResponse assume upstream-response-is-well-formed: validRRs(resp.Answer) && validRRs(resp.Ns) && validRRs(resp.Extra) &&
+//@             optsOK(resp.Answer) && optsOK(resp.Ns) && optsOK(resp.Extra) && optsApart() &&
+//@             (forall i int :: 0 <= i && i < len(resp.Extra) && isOPT(resp.Extra[i]) ==> subnetOptsNonNil(optAt(resp, i))) &&
+//@             (arr(resp.Answer) != arr(resp.Ns) || arr(resp.Answer) == 0) && (arr(resp.Answer) != arr(resp.Extra) || arr(resp.Answer) == 0) && (arr(resp.Ns) != arr(resp.Extra) || arr(resp.Ns) == 0)
+//@   atcall Handler.ServeDNS assert upstream-sees-only-the-chosen-subnet: ecsSome(ecsReq) &&
+//@             ecsAll(ecsReq, ecsFam, prefixAddr(cr.subnet), wrap(prefixBits(cr.subnet), uint8), 0)
+//@   atcall Handler.ServeDNS assert opted-out-means-zero-prefix: ri.ECS != nil && prefixBits(ri.ECS.Subnet) == 0 ==> cr.subnet == zeroPrefix(ecsFam)
+//@   atcall Handler.ServeDNS assert otherwise-the-geoip-subnet-of-the-location: !(ri.ECS != nil && prefixBits(ri.ECS.Subnet) == 0) ==>
+//@             cr.subnet == geoSubnet && geoFam == ecsFam &&
+//@             geoCountry == (ri.ECS != nil && ri.ECS.Location != nil && ri.ECS.Location.Country != "" ? ri.ECS.Location.Country :
+//@                (ri.Location != nil ? ri.Location.Country : (ri.ECS != nil && ri.ECS.Location != nil ? ri.ECS.Location.Country : "")))
